@@ -453,6 +453,17 @@ pub fn cases(tier: Tier) -> Vec<Case> {
                             v.push(mk(format!("text:{t}:{pos}")));
                         }
                     }
+                    // text keys that spell a number: the digits of an assigned key (plain, zero-padded,
+                    // signed, spaced), and of keys nobody assigned - text is not an integer
+                    for (_, k, _) in &table {
+                        for t in [format!("{k}"), format!("0{k}"), format!("+{k}"), format!("00{k}"), format!(" {k}"), format!("{k}.0"), format!("0x0{k:x}")] {
+                            v.push(mk(format!("text:{t}:{n_present}")));
+                            v.push(mk(format!("text:{t}:0")));
+                        }
+                    }
+                    for t in ["0", "-1", "255", "256", "1e0", "١"] {
+                        v.push(mk(format!("text:{t}:{n_present}")));
+                    }
                     // text keys that differ from a member's name only in letter case, or by an
                     // underscore spelling: unknown keys like any other
                     for (name, _, _) in &table {
@@ -716,7 +727,7 @@ pub fn run(ctx: &Ctx) -> Result<Run, String> {
     }
     let mut run = Run::from_stats(
         "exploration",
-        "every text member (RP id and name, user name and displayName of requests and of assertion responses, fmt) with ~400 texts – bidi marks, language tags, separators, NUL, BOM, combining marks, NFC/NFD, full-width forms, lengths around 23/64/255/65535 – reads back code point for code point; per-credential PRF inputs for every subset of six ids of different lengths and byte orders inside makeCredential / getAssertion requests, compared entry by entry after the round trip; 2..300 unknown members appended at once to the full and to the minimal message of each type (counts around the map-header boundaries 23/24 and 255/256): still the same message; for each of the six CTAP2 message types: all presence patterns of the optional members x 4 nested-value variants (one with repeated entries in every list, one with every nested optional structure and list present but empty; plus a variant with byte-string members of more than 4 KiB), serialised with ciborium and inspected as a generic CBOR value (one map spanning all serialised bytes; keys = the specification's integers for the present members, ascending, no nulls), round-tripped; mutations of the encodings: every integer key 0..255 not assigned to a member inserted (every position for the full pattern, at the end otherwise; all positions in thorough) with int/map/bytes values, unknown text keys at every position (also case and underscore variants of every member name), each required member removed or moved to a key of 2, 3 or 5 bytes with the same low byte (must be an error), each present member repeated under such a wide key with another value (ignored or rejected, never taken), each present member duplicated, options omitted / empty; all 256 status bytes converted both ways and injected as lookup failure under Client::authenticate. Every case is distinct",
+        "every text member (RP id and name, user name and displayName of requests and of assertion responses, fmt) with ~400 texts – bidi marks, language tags, separators, NUL, BOM, combining marks, NFC/NFD, full-width forms, lengths around 23/64/255/65535 – reads back code point for code point; per-credential PRF inputs for every subset of six ids of different lengths and byte orders inside makeCredential / getAssertion requests, compared entry by entry after the round trip; 2..300 unknown members appended at once to the full and to the minimal message of each type (counts around the map-header boundaries 23/24 and 255/256): still the same message; for each of the six CTAP2 message types: all presence patterns of the optional members x 4 nested-value variants (one with repeated entries in every list, one with every nested optional structure and list present but empty; plus a variant with byte-string members of more than 4 KiB), serialised with ciborium and inspected as a generic CBOR value (one map spanning all serialised bytes; keys = the specification's integers for the present members, ascending, no nulls), round-tripped; mutations of the encodings: every integer key 0..255 not assigned to a member inserted (every position for the full pattern, at the end otherwise; all positions in thorough) with int/map/bytes values, unknown text keys at every position (also case and underscore variants of every member name, and text keys that spell a number: the digits of every assigned key plain / zero-padded / signed / spaced / hexadecimal), each required member removed or moved to a key of 2, 3 or 5 bytes with the same low byte (must be an error), each present member repeated under such a wide key with another value (ignored or rejected, never taken), each present member duplicated, options omitted / empty; all 256 status bytes converted both ways and injected as lookup failure under Client::authenticate. Every case is distinct",
         true,
         stats,
     );
